@@ -167,17 +167,40 @@ AllFrom(P, i) ==
 \* are attributes of the rule as a whole (an element of the structure before a branch has one type, whichever
 \* block constrains it: the compiler reports `if x = y; branch { if p(x); } along { if q(_, y); }` as conflicting)
 PathClasses == {"VarIntroducedInThen", "WildcardInThen", "ThenDefinedVarNotNew", "Surjectivity"}
+\* the occurrence view of a rule: every term as often as it is written - the term of a match statement
+\* once (at the match line), every pattern once (at its case line)
+RECURSIVE OccFrom(_, _)
+OccFrom(P, i) ==
+  IF i > Len(P) THEN <<<<>>, <<>>>>
+  ELSE LET rest == OccFrom(P, i + 1) IN
+       IF P[i].k = "match"
+       THEN LET Q(t) == [k |-> "if", a |-> [t |-> "def", v |-> NoVar, tm |-> t]]
+                RECURSIVE Cs(_) Cs(b) == IF b > Len(P[i].cs) THEN <<<<>>, <<>>>>
+                                         ELSE LET blk == Block(P, i, b) r == Cs(b + 1)   \* blk[1] is `tm = pat` (renamed)
+                                              IN <<<<Q(blk[1].a.r)>> \o Tail(blk) \o r[1],
+                                                   <<<<i, b, 0>>>> \o [j \in 1..(Len(blk) - 1) |-> <<i, b, j>>] \o r[2]>>
+                r0 == Cs(1)
+            IN <<<<Q(P[i].tm)>> \o r0[1] \o rest[1], <<<<i, 0, 0>>>> \o r0[2] \o rest[2]>>
+       ELSE IF P[i].k = "branch"
+       THEN LET RECURSIVE Bs(_) Bs(b) == IF b > Len(P[i].bs) THEN <<<<>>, <<>>>>
+                                        ELSE LET blk == Block(P, i, b) r == Bs(b + 1)
+                                             IN <<blk \o r[1], [j \in DOMAIN blk |-> <<i, b, j>>] \o r[2]>>
+                r0 == Bs(1)
+            IN <<r0[1] \o rest[1], r0[2] \o rest[2]>>
+       ELSE <<<<P[i]>> \o rest[1], <<<<i, 0, 0>>>> \o rest[2]>>
 ErrorsS(P) ==
   LET perPath == UNION { LET pf == PathFrom(P, c, 1) IN
                          { <<e[1], pf[2][e[2]]>> : e \in {e \in Errors(pf[1]) : e[1] \in PathClasses} } : c \in Choices(P) }
       af == AllFrom(P, 1)
-      whole == { <<e[1], af[2][e[2]]>> : e \in {e \in Errors(af[1]) : e[1] \notin PathClasses} }
+      whole == { <<e[1], af[2][e[2]]>> : e \in {e \in Errors(af[1]) : e[1] \notin PathClasses \cup {"UsedOnce"}} }
+      oc == OccFrom(P, 1)
+      once == { <<e[1], oc[2][e[2]]>> : e \in {e \in Errors(oc[1]) : e[1] = "UsedOnce"} }
       \* match statements: every constructor of the enum needs a case; pattern variables must be fresh
       matchErr == UNION { IF P[i].k # "match" THEN {} ELSE
                           (IF {P[i].cs[b].pat.f : b \in DOMAIN P[i].cs} = Ctors THEN {} ELSE {<<"MatchNotExhaustive", <<i, 0, 0>>>>})
                           \cup { <<"MatchVarNotFresh", <<i, b, 0>>>> : b \in {b \in DOMAIN P[i].cs : VarsOfTerm(P[i].cs[b].pat) \cap ScopeAt(P, i) # {}} }
                         : i \in DOMAIN P }
-  IN perPath \cup whole \cup matchErr
+  IN perPath \cup whole \cup once \cup matchErr
 
 (* ---------------- program space of the probe ---------------- *)
 x == V("x")  y == V("y")
